@@ -8,17 +8,10 @@ import numpy as np
 
 from ..common import Slice, fit, fr, run_driver
 
-MODULE = "PyhmsVerif.Props.C16"
-THEOREMS = [
-    "C16.transparent",
-    "C16.transparent_no_refusal",
-    "C16.head_law",
-    "C16.cutoff_hard",
-    "C16.precision_sticky",
-    "C16.precision_first",
-]
+MODULE = 'PyhmsVerif.Props.C16Run'
+THEOREMS = ['C16.transparent', 'C16.transparent_no_refusal', 'C16.head_law', 'C16.cutoff_hard', 'C16.precision_sticky', 'C16.precision_first', 'C16.C16_run', 'C16.C16_cutoff_hard_run', 'C16.step_traced']
 LEVEL = "proof"
-LEVEL_TEXT = "Theorems over every stack (any depth/order/initial counters) and every call sequence: transparency, head law (count + cutoff law), hard budget, precision ETA law; model tied to pyhms.core.problem by call-by-call differential runs of generated stacks (depth 1-4, deeper in thorough) in both directions."
+LEVEL_TEXT = 'Theorems over every stack (any depth/order/initial counters) and every call sequence: transparency, head law (count + cutoff law), hard budget, precision ETA law; model tied to pyhms.core.problem by call-by-call differential runs of generated stacks (depth 1-4, deeper in thorough) in both directions. NEW (run level): C16_run — in every reachable state of the tree machine every wrapper stack is in the state runStack computes from the initial stack on the sequence of objective values requested through it so far, and the invocations logged for the levels using the stack are exactly the invocations of that trace (inductive invariant Traced); so every wrapper law holds of the stacks of a running tree; C16_cutoff_hard_run: through a stack containing cutoff n c (at any position) the objective is invoked at most c - n times in any run.'
 LEVEL_NOTE = "Trusted: Lean kernel + standard axioms; correspondence generator coverage; durations of StatsGatheringProblem are wall-clock and only their number is modelled; NaN objective values excluded."
 TECHNIQUE = "Lean 4 proof by induction over stacks and call sequences + call-by-call differential correspondence"
 RULE = "case = (direction, wrapper stack, scripted objective values); non-trivial = stack contains a cutoff that gets exhausted or a precision wrapper that is hit; distinct by (direction, stack spec, values)"
